@@ -55,6 +55,10 @@ def run(ctx):
         for n in (0, 15, 16, 33):
             for k in (8, 7, 9, 8):
                 extra.append((m, 1, 0, n, k))
+    # keys that begin / end / begin and end with an ASCII white-space byte (09..0d, 20): key bytes are not text
+    for m in MODES:
+        for k in (11, 5, 1206):
+            extra.append((m, 1, 0, 33, k))
     extra += [("ecb", 0, 0, 65536, 7), ("cbc", 1, 0, 65537, 8), ("ofb", 2, 0, 4097, 7), ("cfb", 1, 0, 4100, 9), ("ofb", 1, 0, 9000, 8)] + ([("cfb", 1, 0, 70001, 7), ("ofb", 2, 0, 131072, 7), ("ecb", 0, 0, 262144, 9)] if thorough else [])
     cases = cases + extra
     write_ndjson(os.path.join(d, "modecases.ndjson"), [{"mode": c[0], "iv": c[1], "fam": c[2], "len": c[3], "key": c[4]} for c in cases])
